@@ -9,7 +9,7 @@ EXPL = ("R11.1 count flow: in each of the three observation-capture bodies every
         "R11.2 sibling agreement on a deliberately coarse abstraction: the three capture copies have equal arm tables; the atomic and "
         "non-atomic exponential strategies apply the same scaling, pass the count parameter, filter on count > 0, rebuild Repeated{"
         "scale_down(midpoint)*count, count} and use the same bucket configuration. Pure arithmetic adapters (min/max/casts) are "
-        "ignored. R11.4 an exponential drain visits every bucket of its snapshot (no take_while/take/skip/step_by on the bucket iteration, directly or "
+        "ignored. R11.5 methods of the strategies shared between threads never write an atomic with a plain store (read-modify-write only); R11.4 an exponential drain visits every bucket of its snapshot (no take_while/take/skip/step_by on the bucket iteration, directly or "
         "in a helper); R11.3 the sort-and-merge drain groups observations on exact equality only (no tolerance arithmetic feeds the merge decision). "
         "Not decided: the 6.25% / 1/1024 error bounds, totals (numeric).")
 AG = "metrique_aggregation"
@@ -380,6 +380,16 @@ def run(ctx):
                     okm = True
         ctx.check(okm, "R11.3", fnkey(b) + "#merges-on-exact-equality", loc(b),
                   "sort-and-merge groups observations by something else than exact equality (%s): distinct recorded values would be reported as one" % why)
+    # ------------------------------------------------------------------ R11.5 shared strategies update shared state with single atomic operations
+    shared = [b for b in F.all_bodies(AG) if b.impl and (b.impl.get("trait") or "").endswith("SharedAggregationStrategy") and "::tests::" not in b.path]
+    ctx.floor("R11.5", "methods of shared (atomic) strategies", len(shared), 2)
+    for b in shared:
+        st_ = [c for c in b.calls() if c.def_.startswith("core::sync::atomic::Atomic") and c.name == "store"]
+        ld_ = [c for c in b.calls() if c.def_.startswith("core::sync::atomic::Atomic") and c.name == "load"]
+        ctx.check(not st_, "R11.5", fnkey(b) + "#no-load-then-store", loc(b, st_[0].bb if st_ else None),
+                  "a method of a strategy that is shared between threads writes an atomic with a plain `store`%s: two concurrent callers can both pass the "
+                  "check and the later store undoes the earlier one (use fetch_max / fetch_add / compare_exchange)" % (" after a `load`" if ld_ else ""),
+                  "no plain atomic store")
     # same configuration everywhere
     cfgs = [c for b_ in F.all_bodies(AG) for c in b_.calls() if c.name in CONFIG_FN and c.def_.startswith(AG)]
     users = sorted({c.body.path.split("::tests::")[0] for c in cfgs if "::tests::" not in c.body.path})
